@@ -53,7 +53,15 @@ func c13Marked(r *eng.Run) {
 	wr.Size0 = wr.W.Size()
 	r.Note("C13 marked %s history %v", cfg, ops)
 	r.Res.Nontrivial = true
-	tr := &msgTrack{onlyWrites: true, startSize: wr.Size0}
+	// The application may attach the same state again (e.g. after every
+	// ResetOp): the writer must not end up consulting it twice.
+	if r.T.Chance(sim.LHist, 1, 3) {
+		at := r.T.Int(sim.LHist, len(ops)+1)
+		ops = append(append(append([]WOp(nil), ops[:at]...), WOp{Kind: WOpReattach}), ops[at:]...)
+		wr.Ops = ops
+		r.Probe("extensions_attached_twice")
+	}
+	tr := &msgTrack{onlyWrites: true, buffered: true, startSize: wr.Size0}
 	ExecHistory(r, wr, seed, func(i int) { c06Step(r, wr, tr, i) })
 }
 
@@ -368,6 +376,43 @@ func c13Scripted(r *eng.Run) {
 		if (ref.IsControl(f.Op) || f.Op == ref.OpCont) && f.Rsv&4 != 0 {
 			badIdx = i
 			break
+		}
+	}
+	// The stateless helpers decide the same per header.
+	for i, f := range frames {
+		h := hdrOf(f)
+		firstData := !ref.IsControl(f.Op) && f.Op != ref.OpCont
+		r1 := f.Rsv&4 != 0
+		got, err := wsflate.IsCompressed(h)
+		uh, was, uerr := wsflate.UnsetBit(h)
+		switch {
+		case r1 && !firstData:
+			if err == nil || uerr == nil {
+				r.Failf("rsv1_not_rejected", "frame %d (%s): IsCompressed/UnsetBit accept RSV1 on a control/continuation frame (%v, %v)", i, frameStr(f), err, uerr)
+			}
+		default:
+			wantH := h
+			wantH.Rsv &^= 4
+			if err != nil || uerr != nil || got != r1 || was != r1 || uh != wantH {
+				r.Failf("helper_mismatch", "frame %d (%s): IsCompressed=%v,%v UnsetBit=%+v,%v,%v; expected compressed=%v and RSV1 cleared only", i, frameStr(f), got, err, uh, was, uerr, r1)
+			}
+		}
+		sh, serr := wsflate.SetBit(h)
+		switch {
+		case r1:
+			if serr == nil {
+				r.Failf("helper_mismatch", "frame %d (%s): SetBit on a header that already has RSV1 returned no error", i, frameStr(f))
+			}
+		case firstData:
+			wantH := h
+			wantH.Rsv |= 4
+			if serr != nil || sh != wantH {
+				r.Failf("helper_mismatch", "frame %d (%s): SetBit=%+v,%v; expected RSV1 set", i, frameStr(f), sh, serr)
+			}
+		default:
+			if serr != nil || sh != h {
+				r.Failf("helper_mismatch", "frame %d (%s): SetBit changed a control/continuation header or failed (%+v, %v)", i, frameStr(f), sh, serr)
+			}
 		}
 	}
 	idx := 0 // next frame NextFrame will parse at top level
